@@ -540,3 +540,60 @@ package desync
 //@   oncall Seek: requires held(f.mu) == 1
 //@   ensures wfPos(f.r)
 //@   ensures $last != nil ==> r1 != 0
+
+// ---------------------------------------------------------------------------- C10: copy-on-read sparse files
+
+//# the done bitmap is only ever extended by concurrent loaders (rely) and is long enough for the chunk list
+//@ guard sparseFileLoader: done by mu inv 8*len(self.done) >= len(self.chunks) \
+//@     rely len(self.done) == old(len(self.done)) && forall k int :: old(bitAt(bytes(self.done), k)) ==> bitAt(bytes(self.done), k)
+
+//@ spec func spEnd(l *sparseFileLoader, j int) int = elem(l.chunks, j).Start + elem(l.chunks, j).Size
+//@ spec func wfSparse(l *sparseFileLoader) bool = l.nullChunk != nil && \
+//@     (forall j int :: inrng(l.chunks, j) ==> elem(l.chunks, j) != nil && elem(l.chunks, j).Start < 1<<62 && elem(l.chunks, j).Size < 1<<62) && \
+//@     (forall j int, k int :: inrng(l.chunks, j) && inrng(l.chunks, k) && j <= k ==> spEnd(l, j) <= spEnd(l, k) && elem(l.chunks, j).Start <= elem(l.chunks, k).Start)
+
+//@ func (l *sparseFileLoader) indexRange
+//@   prop C10
+//@   pure
+//@   requires wfSparse(l) && start >= 0 && length >= 0 && start + length < 1<<62
+//@   ensures length >= 1 && len(l.chunks) > 0 ==> 0 <= r0 && r0 <= r1 && r1 < len(l.chunks)
+//# nothing before r0 reaches into the range, nothing after r1 starts inside it
+//@   ensures length >= 1 && len(l.chunks) > 0 ==> forall j int :: inrng(l.chunks[:r0], j) ==> spEnd(l, j) <= start
+//@   ensures length >= 1 && len(l.chunks) > 0 ==> forall j int :: inrng(l.chunks[r1+1:], j) ==> elem(l.chunks, j).Start >= start + length
+//@   loop 1: invariant firstChunk + 1 <= i && i <= len(l.chunks) && lastChunk == i - 1 && firstChunk < len(l.chunks) && 0 <= firstChunk
+
+//@ spec func isNullAt(l *sparseFileLoader, k int) bool = l.chunks[k].ID == l.nullChunk.ID
+
+//@ func (l *sparseFileLoader) loadChunk
+//@   prop C10
+//@   requires wfSparse(l) && 0 <= i && i < len(l.chunks) && held(l.mu) == 0 && 8*len(l.done) >= len(l.chunks)
+//@   modifies l.done, l.mu, allmem(uint8), heap(sparseIndexChunk.mu), heap(Chunk.data), l.s.$gets, l.s.$lastErr
+//@   ensures r0 == nil ==> bitAt(bytes(l.done), i)
+//@   ensures held(l.mu) == 0 && len(l.done) == old(len(l.done))
+//# bits already set stay set (what other loaders and this one did is monotone)
+//@   ensures forall k int :: old(bitAt(bytes(l.done), k)) ==> bitAt(bytes(l.done), k)
+//@   ensures l.s.$lastErr != nil && l.s.$gets != old(l.s.$gets) ==> r0 != nil
+
+//@ func (l *sparseFileLoader) loadRange
+//@   prop C10
+//@   requires wfSparse(l) && start >= 0 && length >= 0 && start + length < 1<<62 && held(l.mu) == 0 && 8*len(l.done) >= len(l.chunks)
+//@   ensures held(l.mu) == 0
+//@   loop 1: invariant first <= i && i <= last + 1 && 0 <= first && last < len(l.chunks) && held(l.mu) == 2
+//@   loop 1: invariant forall j int :: inrng(chunksNeeded, j) ==> first <= elem(chunksNeeded, j) && elem(chunksNeeded, j) <= last
+//# every chunk of the range is classified: already loaded, a null chunk of the truncated file, or queued for loading
+//@   assert@loop1.iterend b || isNullAt(l, i) || (len(chunksNeeded) > 0 && chunksNeeded[len(chunksNeeded)-1] == i)
+//@   loop 2: invariant held(l.mu) == 0 && 8*len(l.done) >= len(l.chunks)
+//@   loop 2: invariant forall j int :: inrng(chunksNeeded[:$i], j) ==> bitAt(bytes(l.done), elem(chunksNeeded, j))
+
+//@ func (h *SparseFileHandle) ReadAt
+//@   prop C10
+//@   requires wfSparse(h.sf.loader) && held(h.sf.loader.mu) == 0 && offset >= 0 && offset + len(b) < 1<<62 && 8*len(h.sf.loader.done) >= len(h.sf.loader.chunks)
+//@   ghost@entry $last = nil
+//@   ghost@after:loadRange $last = $r0
+//# the cache file is read only after every chunk of the range was loaded successfully
+//@   oncall ReadAt: requires $last == nil
+//@   ensures $last != nil ==> r1 == $last && r0 == 0
+
+//@ func (l *sparseFileLoader) stateFromReader
+//@   prop C10
+//@   ensures r1 == nil ==> 8*len(r0) >= len(l.chunks) && len(r0) == (len(l.chunks) + 7) / 8
